@@ -41,7 +41,12 @@ type c11Prog struct {
 
 func (p c11Prog) String() string { return fmt.Sprintf("leaf%d>>=%v", p.leaf, p.conts) }
 
-const c11NConts = 5
+const c11NConts = 6
+
+// handlers that continuation kind 5 pre-configures on the monad it returns (another live handler, the chain's own
+// observe handler, a closed handler): the composed chain runs as ONE effect where the chain is observed, the inner
+// monad's own configuration plays no role
+var c11Inner []*fpgo.HandlerDef
 
 // real continuation j at chain position pos (effect ids encode both)
 func c11Cont(l *c11Log, j, pos int) func(int) *fpgo.MonadIODef[int] {
@@ -64,6 +69,18 @@ func c11Cont(l *c11Log, j, pos int) func(int) *fpgo.MonadIODef[int] {
 			l.add(id + 5)
 			return fpgo.MonadIOJustGenerics(x - 1)
 		}
+	case 5: // returns a monad that was pre-configured with ObserveOn / SubscribeOn of its own
+		return func(x int) *fpgo.MonadIODef[int] {
+			m := fpgo.MonadIONewGenerics(func() int { l.add(id); return x + 7 })
+			if len(c11Inner) > 0 {
+				h := c11Inner[(pos+x)%len(c11Inner)]
+				m = m.ObserveOn(h)
+				if pos%2 == 1 {
+					m = m.SubscribeOn(h)
+				}
+			}
+			return m
+		}
 	default: // two effects in sequence via FlatMap(Just)
 		return func(x int) *fpgo.MonadIODef[int] {
 			return fpgo.MonadIONewGenerics(func() int { l.add(id); return x + 1 }).FlatMap(func(y int) *fpgo.MonadIODef[int] { return fpgo.MonadIOJustGenerics(y) })
@@ -83,6 +100,8 @@ func c11ContModel(j, pos int, x int) (int, []int) {
 		return x * 3, []int{id, id + 1}
 	case 3:
 		return x - 1, []int{id + 5}
+	case 5:
+		return x + 7, []int{id}
 	default:
 		return x + 1, []int{id}
 	}
@@ -323,10 +342,55 @@ func (e *c11Env) checkProgram(p c11Prog) {
 }
 
 func runC11(c *core.Ctx) {
+	// the package-level default Handler used as observe / subscribe handler, as the very first thing this process does
+	// with the library (nothing may depend on some other call having happened before)
+	{
+		c.Eval(1)
+		c.DistinctAdd(1)
+		type where struct{ eff, next int64 }
+		got := make(chan where, 1)
+		var effG int64
+		var pv any
+		var loc string
+		returned := make(chan struct{})
+		go func() {
+			defer close(returned)
+			pv, loc = core.Catch(func() {
+				fpgo.MonadIONewGenerics(func() int { effG = core.Goid(); return 1 }).ObserveOn(&fpgo.Handler).Subscribe(fpgo.Subscription[int]{OnNext: func(int) { got <- where{effG, core.Goid()} }})
+			})
+		}()
+		if v, dump := core.AwaitOrStuck(returned, 2*time.Second, 60*time.Second, func() int64 { return 0 }); v == "stuck" {
+			c.Violationf("subscribe:never-returns", map[string]any{"handler": "the package-level default Handler, first use in the process", "goroutines": core.RepoGoroutineSummary(dump)}, "Subscribe of a MonadIO observed on the package-level default Handler (fpgo.Handler), as the first library call of the process, never returns")
+			return
+		} else if v != "done" {
+			c.Inconclusive("default handler probe: watchdog")
+			return
+		}
+		if pv != nil {
+			c.Violationf("default-handler:panic", nil, "ObserveOn(&fpgo.Handler) panics: %v at %s", pv, loc)
+		} else {
+			select {
+			case w := <-got:
+				if w.eff == core.Goid() || w.eff != w.next {
+					c.Violationf("default-handler:goroutine", nil, "ObserveOn(&fpgo.Handler): effect ran on goroutine %d, OnNext on %d, the caller is %d", w.eff, w.next, core.Goid())
+				}
+			case <-time.After(15 * time.Second):
+				if quiet, _ := core.QuietNow(); quiet {
+					c.Violationf("subscribe:never-delivered", map[string]any{"handler": "the package-level default Handler, first use in the process"}, "a MonadIO observed on the package-level default Handler (fpgo.Handler), subscribed as the first library call of the process, never ran its effect")
+				} else {
+					c.Inconclusive("default handler probe still in progress after 15 s")
+				}
+			}
+		}
+	}
 	e := &c11Env{c: c}
 	e.h1 = fpgo.Handler.New()
 	e.h2 = fpgo.Handler.NewByCh(make(chan func(), 2))
 	e.g1, e.g2 = handlerGoid(e.h1), handlerGoid(e.h2)
+	hOther, hClosed := fpgo.Handler.New(), fpgo.Handler.New()
+	hClosed.Close()
+	c11Inner = []*fpgo.HandlerDef{hOther, e.h1, hClosed}
+	defer hOther.Close()
 	depth := c.Pick(3, 5)
 	var progs []c11Prog
 	for leaf := 0; leaf < 3; leaf++ {
@@ -357,8 +421,17 @@ func runC11(c *core.Ctx) {
 		progs = append(progs, p)
 	}
 	// handlers are shared: run sequentially (the property is about compositions, not schedules)
-	for _, p := range progs {
-		e.checkProgram(p)
+	// (each program under the stuck detector: an Eval / Subscribe that waits for itself never returns)
+	for pi, p := range progs {
+		done := make(chan struct{})
+		go func() { defer close(done); e.checkProgram(p) }()
+		if v, dump := core.AwaitOrStuck(done, 2*time.Second, 120*time.Second, func() int64 { return int64(pi) }); v == "stuck" {
+			e.viol("eval-or-subscribe:never-returns", p, "evaluating / subscribing the program never returns and nothing can make progress: %v", core.RepoGoroutineSummary(dump))
+			return
+		} else if v != "done" {
+			c.Inconclusive("watchdog while checking " + p.String())
+			return
+		}
 	}
 	// handlers are bound at Subscribe time: re-configuring the same MonadIO (SubscribeOn / ObserveOn) while an
 	// earlier subscription's effect is still in flight must not move that subscription's OnNext
@@ -396,7 +469,11 @@ func runC11(c *core.Ctx) {
 						"Subscribe() was called with ObserveOn(h1)/SubscribeOn(h2); while the effect was in flight the MonadIO was re-configured (variant %d); OnNext ran on goroutine %d (%s) instead of h2's %d", variant, g, name, e.g2)
 				}
 			case <-time.After(20 * time.Second):
-				c.Violationf("subscribe:never-delivered", map[string]any{"variant": variant}, "OnNext was not delivered after a re-configuration in flight (variant %d)", variant)
+				if quiet, _ := core.QuietNow(); quiet {
+					c.Violationf("subscribe:never-delivered", map[string]any{"variant": variant}, "OnNext was not delivered after a re-configuration in flight (variant %d)", variant)
+				} else {
+					c.Inconclusive("re-configuration probe still in progress after 20 s")
+				}
 			}
 		})
 		if pv != nil {
@@ -486,7 +563,11 @@ func runC11(c *core.Ctx) {
 				select {
 				case <-done:
 				case <-time.After(20 * time.Second):
-					c.Violationf("subscribe:never-delivered", map[string]any{"variant": variant}, "pending deliveries on a busy subscribe handler never arrived")
+					if quiet, _ := core.QuietNow(); quiet {
+						c.Violationf("subscribe:never-delivered", map[string]any{"variant": variant}, "pending deliveries on a busy subscribe handler never arrived")
+					} else {
+						c.Inconclusive("pending-delivery probe still in progress after 20 s")
+					}
 					return
 				}
 			}
@@ -599,7 +680,7 @@ func init() {
 		Meta: func(c *core.Ctx) core.Meta {
 			return core.Meta{
 				Level: "exploration",
-				Rule: "programs = Just/New leaves followed by a FlatMap chain of depth <= D (D=3 quick, 5 thorough; all chains enumerated) over 5 continuation kinds (pure Just, New with effect, nested FlatMap, continuation that logs when called, FlatMap(Just) tail) plus PRNG chains up to length 30; each program: log empty after construction and after ObserveOn/SubscribeOn, Eval x3 and Subscribe x2 under all four nil/non-nil handler combinations each add exactly the expected effect sequence and deliver exactly one value, goroutine identity of effects and OnNext, nil OnNext runs nothing, handlers stay bound to a subscription when the MonadIO is re-configured while its effect is in flight, left/right identity and associativity by (value, effect log); carried values that are themselves MonadIOs / Maybes / nil (Just, New, FlatMap, Eval, Subscribe hand them on untouched and never run them); branching compositions (two children of one parent of depth 0..18 (thorough 40) x all 25 continuation pairs, each extended once more, evaluated twice in interleaved order); 5 Subscribes of one counting MonadIO whose deliveries are pending on a busy SubscribeOn handler (each must get the value of its own evaluation). " +
+				Rule: "programs = Just/New leaves followed by a FlatMap chain of depth <= D (D=3 quick, 5 thorough; all chains enumerated) over 6 continuation kinds (pure Just, New with effect, nested FlatMap, continuation that logs when called, FlatMap(Just) tail, a monad pre-configured with its own ObserveOn/SubscribeOn on another / the chain's own / a closed handler) plus PRNG chains up to length 30; first of all a MonadIO observed on the package-level default Handler as the first library call of the process; each program: log empty after construction and after ObserveOn/SubscribeOn, Eval x3 and Subscribe x2 under all four nil/non-nil handler combinations each add exactly the expected effect sequence and deliver exactly one value, goroutine identity of effects and OnNext, nil OnNext runs nothing, handlers stay bound to a subscription when the MonadIO is re-configured while its effect is in flight, left/right identity and associativity by (value, effect log); carried values that are themselves MonadIOs / Maybes / nil (Just, New, FlatMap, Eval, Subscribe hand them on untouched and never run them); branching compositions (two children of one parent of depth 0..18 (thorough 40) x all 25 continuation pairs, each extended once more, evaluated twice in interleaved order); 5 Subscribes of one counting MonadIO whose deliveries are pending on a busy SubscribeOn handler (each must get the value of its own evaluation). " +
 					"distinct_nontrivial = enumerated (program, mode) cases whose expected effect log is non-empty",
 				Assumptions: []string{"observe and subscribe handlers are two distinct handlers (posting to an unbuffered handler from its own goroutine blocks by construction)",
 					"with ObserveOn only, OnNext runs on the observe handler's goroutine", "sequential driver: the property quantifies over compositions, not schedules"},
